@@ -2,13 +2,16 @@
 (* Judges the lines recorded by harness/cmd/signing from the real code.  A line is one vector
    (kind, base, field, val) plus what really happened: `verdict` of sigs.ExtractSignerAddress ==
    consumer / lavaprotocol.VerifyRelayReply after the single-field mutation of a really signed
-   message, `ro` = request and reply byte-identical before and after the verification (`changed`
-   names what differs), and the same for the signing call (sign_ro / sign_changed, reported as a
+   message (`verdict2`: the same check repeated), `ro` = request, reply *and the whole buffers
+   backing reply.Data / request data* byte-identical before and after the verification (`changed`
+   names what differs; `layout` = exact | spare | shared, see Signing.tla), and the same for the signing call (sign_ro / sign_changed, reported as a
    note only: C25 speaks about checking).
    Classes printed as <<"BAD", json>>:
      accepts-tampered:<field>[:<metadata collision class>]   verification passed although a signed field differs
      rejects-untampered:<field>                              verification failed although no signed field differs
      verify-modifies:<what>                                  verification changed the object it checks
+                                                             (reply.buffer-tail = memory behind reply.Data)
+     verdict-changes-on-recheck:<layout>                     a second verification of the same objects disagrees
      note:sign-modifies:<what> *)
 EXTENDS Signing, IOUtils
 VARIABLE l
@@ -23,6 +26,7 @@ JudgeWith(r, m0, m1) ==
                                               THEN ":" \o MdClass(m0[r.field], m1[r.field]) ELSE ""))
       \cup Tag(r.verdict # "ok" /\ exp = "ok", "rejects-untampered:" \o r.field)
       \cup Tag(~r.ro, "verify-modifies:" \o r.changed)
+      \cup Tag(r.verdict2 # r.verdict, "verdict-changes-on-recheck:" \o r.layout)
       \cup Tag(~r.sign_ro, "note:sign-modifies:" \o r.sign_changed)
 Judge(r) == UNION {JudgeWith(r, m0, m1) : m0 \in {Base(r.kind, r.base)},
                                          m1 \in {[Base(r.kind, r.base) EXCEPT ![r.field] = r.val]}}
@@ -31,7 +35,7 @@ Check(r) == LET bad == Judge(r) IN
 
 \* one initial state per line (the line number); lines are independent
 TInit == /\ \E T \in {Trace} : msg \in {T[i] : i \in 1..Len(T)}
-         /\ kind = "" /\ signed = <<>> /\ tampered = <<>> /\ verdict = "" /\ phase = "" /\ l = 0
+         /\ kind = "" /\ signed = <<>> /\ tampered = <<>> /\ verdict = "" /\ verdict2 = "" /\ phase = "" /\ buf = <<>> /\ l = 0
 TNext == l = 0 /\ Check(msg) /\ l' = 1 /\ UNCHANGED vars
 Post == LET d == TLCGet("stats").distinct IN PrintT(<<"HWM", d \div 2>>) /\ d = 2 * Len(Trace)
 =============================================================================
